@@ -53,7 +53,10 @@ RULE = ("Wrapped object = recording callable c3 + c0*asinh(x) + c1*asinh(y) + c2
         "(PolygonMask2D on star-shaped, convex, dart and U/zigzag/spiral/comb polygons, 3-16 vertices; polygons with <= 4 "
         "vertices are run from every starting vertex in both orientations inside one case, larger ones with a drawn "
         "rotation/orientation; probe points in the bounding box, beside vertices, beside edge mid-points and on chords), "
-        "samplers (all 14 sample* functions, counts 1..5, 1-D up to 33). RE-USE: every wrapper instance is evaluated at 1-3 "
+        "samplers (all 14 sample* functions, counts 1..5, 1-D up to 33). Wrapped VECTOR functions also come in two persistent-object flavours: "
+        "a Python callable that returns one stored Vector3D on every call, and raysect's ConstantVector (returns its own stored "
+        "object); after every evaluation the stored vector must still have its original components. "
+        "RE-USE: every wrapper instance is evaluated twice in a row at each of 1-3 "
         "points and then again at the first point (value and inner argument must repeat bit for bit); every mask is evaluated "
         "forward, backward and twice in a row per point; every sampler is called twice (first result intact, equal, no shared "
         "memory). CALLER-OWNED: arrays / lists handed to samplers and PolygonMask2D are bit-identical afterwards and "
@@ -110,6 +113,10 @@ REQUIRED_LABELS = [l for l in [
     "samplers:n=1", "samplers:n=2", "samplers:non-cubic", "samplers:nx!=nz", "samplers:invalid",
     "samplers:form:list", "samplers:form:tuple", "samplers:form:ndarray", "samplers:form:f32", "samplers:form:int",
     "samplers:form:fortran", "samplers:form:strided", "samplers:range:int", "samplers:range:np32",
+    # persistent-object flavour of wrapped vector functions (one stored Vector3D handed out on every call)
+    "cyl:wf:stored", "cyl:wf:const", "periodic:wf:stored", "periodic:wf:const", "samplers:wf:stored", "samplers:wf:const",
+    "periodic:persistent", "samplers:persistent",
+    "cyl:VectorCylindricalTransform:persistent:phi!=0-twice", "cyl:VectorAxisymmetricMapper:persistent:phi!=0-twice",
 ] + ["samplers:" + f for f in _SAMPLER_FNS]
   + ["%s:%s" % (s, k) for s in _WRAP_SUBS for k in ("af:int", "af:np32", "af:np64", "af:float", "wf:object", "wf:function", "wf:raysect", "reuse")]
   + ["%s:%s" % (s, k) for s in ("slice", "clamp", "periodic") for k in ("cf:int", "cf:np32", "cf:np64", "cf:float")]
@@ -146,7 +153,7 @@ _SFORMS = ["float", "float", "int", "np64", "np32"]
 def forms():
     """af: form of the call arguments, cf: form of constructor values, wf: form of the wrapped function."""
     return st.fixed_dictionaries({"af": st.sampled_from(_SFORMS), "cf": st.sampled_from(_SFORMS),
-                                  "wf": st.sampled_from(["object", "object", "function", "raysect"])})
+                                  "wf": st.sampled_from(["object", "object", "function", "raysect", "stored", "const"])})
 
 
 def _with(case, fm):
@@ -189,6 +196,8 @@ def vval(co, args):
 
 class Rec:
     """Scalar recording callable."""
+    records = True
+    flavour = "fresh"
 
     def __init__(self, co, rot=0):
         self.co, self.rot, self.calls = co, rot, []
@@ -202,22 +211,41 @@ class Rec:
 
 
 class VRec:
-    """Vector recording callable."""
+    """Vector recording callable.  Flavour "fresh": a new Vector3D per call, depending on the arguments.  Persistent
+    flavours: "stored" = the callable returns one stored Vector3D object on every call (raysect hands it through unchanged),
+    "const" = raysect's ConstantVector (returns its own stored object, records nothing)."""
+    records = True
 
-    def __init__(self, co):
-        self.co, self.calls = co, []
+    def __init__(self, co, flavour="fresh"):
+        self.co, self.calls, self.flavour = co, [], flavour
+        self.orig = vval(co, (0.3, -0.7, 1.1))
+        self.vec = Vector3D(*self.orig)
+        self.records = flavour != "const"
 
     def __call__(self, *a):
         self.calls.append(a)
-        return Vector3D(*vval(self.co, a))
+        if self.flavour == "fresh":
+            return Vector3D(*vval(self.co, a))
+        return self.vec
 
     def value(self, a):
-        return vval(self.co, a)
+        return vval(self.co, a) if self.flavour == "fresh" else self.orig
+
+
+def vrec(case):
+    wf = case.get("wf", "object")
+    return VRec(case["f"], wf if wf in ("stored", "const") else "fresh")
 
 
 def wrapped(ctx, form, rec, dim):
     """The object handed to the code under test for recorder `rec`."""
+    if form in ("stored", "const") and not isinstance(rec, VRec):
+        form = "object"             # scalars are immutable Python floats: no persistent-object flavour
     ctx.label("wf:" + form)
+    if form == "const":
+        return getattr(RV, "Constant%dD" % dim)(Vector3D(*rec.orig))
+    if form == "stored":
+        return rec
     if form == "function":
         if dim == 1:
             def fn(x):
@@ -266,31 +294,63 @@ def _val(v):
     return _vec(v) if isinstance(v, Vector3D) else v
 
 
-def _eval(ctx, w, f, p_raw, af):
-    """Call w at the point given in form `af`; returns (float64 point, result, recorded inner argument, passed objects)."""
+def _intact(ctx, f, fo, what):
+    """A persistent wrapped vector function still returns its original value (the stored Vector3D is unchanged)."""
+    if f.flavour == "stored":
+        now = _vec(f.vec)
+    elif f.flavour == "const":
+        now = _vec(fo(*([0.5] * _ndim(fo))))
+    else:
+        return
+    ctx.check(now == f.orig, "wrapped-function-intact",
+              lambda: "%s: the wrapped function returned %r before the wrapper was evaluated, now it returns %r "
+                      "(the wrapper modified the Vector3D object owned by the wrapped function)" % (what, f.orig, now))
+
+
+def _ndim(fo):
+    n = type(fo).__name__
+    return int(n[-2]) if n[-1] == "D" and n[-2].isdigit() else 3
+
+
+def _copy(v):
+    return Vector3D(v.x, v.y, v.z) if isinstance(v, Vector3D) else v
+
+
+def _eval(ctx, w, f, p_raw, af, fo=None):
+    """Call w at the point given in form `af`, twice in a row (relation 'repeat'); returns (float64 point, result
+    [a copy if it is a vector], recorded inner argument or None for a non-recording function, passed objects)."""
     pairs = [canon(af, v) for v in p_raw]
     objs = [o for o, _ in pairs]
     p = [c for _, c in pairs]
     f.calls.clear()
     with ctx.cut("call"):
-        got = w(*objs)
-    a = _one_call(ctx, f, "inner")
+        got = _copy(w(*objs))
+    a = _one_call(ctx, f, "inner") if f.records else None
+    _intact(ctx, f, fo, "after %r" % (p,))
+    f.calls.clear()
+    with ctx.cut("call-repeat"):
+        got2 = _copy(w(*objs))
+    a2 = _one_call(ctx, f, "repeat") if f.records else None
+    ctx.check(_val(got2) == _val(got) and a2 == a, "repeat",
+              lambda: "at %r: first call gave %r (inner %r), the immediate second call %r (inner %r)" % (p, _val(got), a, _val(got2), a2))
+    _intact(ctx, f, fo, "after two calls at %r" % (p,))
     return p, got, a, objs
 
 
-def _again(ctx, w, f, first, name):
+def _again(ctx, w, f, first, name, fo=None):
     """(c) the instance evaluated once more at its first point: same value, same inner argument, bit for bit."""
     if first is None:
         return
     p, got, a, objs = first
     f.calls.clear()
     with ctx.cut("call-again"):
-        got2 = w(*objs)
-    a2 = _one_call(ctx, f, "reuse")
+        got2 = _copy(w(*objs))
+    a2 = _one_call(ctx, f, "reuse") if f.records else None
     ctx.label("reuse")
     ctx.check(_val(got2) == _val(got) and a2 == a, "reuse",
               lambda: "%s at %r: first call gave %r (inner %r), the same call after other points gives %r (inner %r)"
                       % (name, p, _val(got), a, _val(got2), a2))
+    _intact(ctx, f, fo, "%s after re-evaluation at %r" % (name, p))
 
 
 def _attr_fn(ctx, w, attr, fobj, form):
@@ -644,11 +704,12 @@ def run_cyl(case, ctx):
     ctx.label(cls, "af:" + af)
     vector = cls.startswith("Vector")
     three = "Cylindrical" in cls
-    f = VRec(case["f"]) if vector else Rec(case["f"])
+    f = vrec(case) if vector else Rec(case["f"])
     fo = wrapped(ctx, wf, f, 3 if three else 2)
     with ctx.cut("construct"):
         w = getattr(M, cls)(fo)
-    _attr_fn(ctx, w, "function3d" if three else "function2d", fo, wf)
+    _attr_fn(ctx, w, "function3d" if three else "function2d", fo, "raysect" if wf == "const" and vector else wf)
+    n_rot = 0
     first = None
     for p_raw in case["pts"]:
         p_raw = _fl(p_raw)
@@ -659,23 +720,29 @@ def run_cyl(case, ctx):
             p = [c for _, c in pairs]
             f.calls.clear()
             with ctx.cut("call"):
-                got = w(*objs)
-            a = _one_call(ctx, f, "inner")
+                got = _copy(w(*objs))
+            a = _one_call(ctx, f, "inner") if f.records else None
+            _intact(ctx, f, fo, "after %r" % (p,))
         else:
-            p, got, a, objs = _eval(ctx, w, f, p_raw, af)
+            p, got, a, objs = _eval(ctx, w, f, p_raw, af, fo)
         x, y, z = p
         if 0.0 < max(abs(x), abs(y)) < R_LO:      # float32 flush of a tiny value: outside the accurate range, not judged
             ctx.label("out-of-range-after-form")
             continue
-        ctx.check(len(a) == (3 if three else 2), "inner", lambda: "inner called with %r" % (a,))
         r_ref = math.hypot(x, y)
         phi_ref = math.atan2(y, x)
-        ctx.check(abs(a[0] - r_ref) <= 4 * U * r_ref, "inner-radius",
-                  lambda: "%s(%r,%r,%r): inner r = %r, hypot = %r" % (cls, x, y, z, a[0], r_ref))
-        ctx.check(a[-1] == z, "inner-z", lambda: "%s(%r,%r,%r): inner z = %r" % (cls, x, y, z, a[-1]))
-        if three:
-            ctx.check(abs(a[1] - phi_ref) <= 2 * math.ulp(phi_ref), "inner-angle",
-                      lambda: "%s(%r,%r,%r): inner phi = %r, atan2 = %r" % (cls, x, y, z, a[1], phi_ref))
+        if a is not None:
+            ctx.check(len(a) == (3 if three else 2), "inner", lambda: "inner called with %r" % (a,))
+            ctx.check(abs(a[0] - r_ref) <= 4 * U * r_ref, "inner-radius",
+                      lambda: "%s(%r,%r,%r): inner r = %r, hypot = %r" % (cls, x, y, z, a[0], r_ref))
+            ctx.check(a[-1] == z, "inner-z", lambda: "%s(%r,%r,%r): inner z = %r" % (cls, x, y, z, a[-1]))
+            if three:
+                ctx.check(abs(a[1] - phi_ref) <= 2 * math.ulp(phi_ref), "inner-angle",
+                          lambda: "%s(%r,%r,%r): inner phi = %r, atan2 = %r" % (cls, x, y, z, a[1], phi_ref))
+        if vector and f.flavour != "fresh" and phi_ref != 0:
+            n_rot += 1
+            if n_rot >= 2:
+                ctx.label("%s:persistent:phi!=0-twice" % cls)
         if vector:
             v = f.value(a)
             want = _rotz(v, phi_ref)
@@ -700,7 +767,7 @@ def run_cyl(case, ctx):
             ctx.label("tiny-or-huge")
         ctx.nt(origin or axis or not (x > 0 and y > 0) or big)
         first = first or (p, got, a, objs)
-    _again(ctx, w, f, first, cls)
+    _again(ctx, w, f, first, cls, fo)
 
 
 # ================================================================================================ periodic
@@ -810,7 +877,7 @@ def run_periodic(case, ctx):
     vector = cls.startswith("V")
     dim = int(cls[-1])
     af, cf, wf = case.get("af", "float"), case.get("cf", "float"), case.get("wf", "object")
-    f = VRec(case["f"]) if vector else Rec(case["f"])
+    f = vrec(case) if vector else Rec(case["f"])
     if case.get("invalid"):
         ctx.label("invalid")
         ctx.nt()
@@ -826,13 +893,13 @@ def run_periodic(case, ctx):
     fo = wrapped(ctx, wf, f, dim)
     with ctx.cut("construct"):
         w = getattr(M, name)(fo, *pobjs)
-    _attr_fn(ctx, w, "function%dd" % dim, fo, wf)
+    _attr_fn(ctx, w, "function%dd" % dim, fo, "raysect" if wf == "const" and vector else wf)
     _read_periods(ctx, w, dim, periods, name)
     first = None
     for p_raw in case["pts"]:
-        p, got, a, objs = _eval(ctx, w, f, p_raw, af)
-        ctx.check(len(a) == dim and all(type(v) is float for v in a), "inner", lambda: "inner called with %r" % (a,))
-        for ax in range(dim):
+        p, got, a, objs = _eval(ctx, w, f, p_raw, af, fo)
+        ctx.check(a is None or (len(a) == dim and all(type(v) is float for v in a)), "inner", lambda: "inner called with %r" % (a,))
+        for ax in range(dim if a is not None else 0):
             x, per, inner = p[ax], periods[ax], a[ax]
             info = "%s periods %r at %r axis %d" % (name, periods, p, ax)
             if per == 0:
@@ -866,12 +933,14 @@ def run_periodic(case, ctx):
                 edge = True
             ctx.nt(edge)
         want = f.value(a)
+        if vector and f.flavour != "fresh":
+            ctx.label("persistent")
         if vector:
             ctx.check(_vec(got) == tuple(want), "vector", lambda: "%s at %r = %r, f(inner) = %r" % (name, p, _vec(got), want))
         else:
             ctx.check(got == want, "value", lambda: "%s at %r = %r, f(inner) = %r" % (name, p, got, want))
         first = first or (p, got, a, objs)
-    _again(ctx, w, f, first, name)
+    _again(ctx, w, f, first, name, fo)
     _read_periods(ctx, w, dim, periods, name)
 
 
@@ -1144,7 +1213,7 @@ _AFORMS = ["list", "tuple", "ndarray", "f32", "int", "fortran", "strided"]
 def samplers_strategy(draw):
     fn = draw(st.sampled_from(sorted(_ALLFN)))
     dim = _ALLFN[fn]
-    case = {"fn": fn, "f": draw(coeffs()), "wf": draw(st.sampled_from(["object", "function", "raysect"]))}
+    case = {"fn": fn, "f": draw(coeffs()), "wf": draw(st.sampled_from(["object", "function", "raysect", "stored", "const"]))}
     if fn in _SCAL or fn in _VEC:
         rs = [draw(_srange(33 if dim == 1 else 5)) for _ in range(dim)]
         case["rf"] = draw(st.sampled_from(["float", "float", "int", "np32", "np64"]))
@@ -1212,7 +1281,7 @@ def _grid_check(ctx, fn, f, vector, axes, v):
         else:
             got = float(v[idx])
             ctx.check(got == want, "entry", lambda: "%s: out%r = %r but f%r = %r" % (fn, list(idx), got, args, want))
-    ctx.check(sorted(calls) == sorted(want_calls), "calls",
+    ctx.check(not f.records or sorted(calls) == sorted(want_calls), "calls",
               lambda: "%s: the function was evaluated at %r, the grid is %r" % (fn, calls[:40], want_calls[:40]))
 
 
@@ -1258,7 +1327,7 @@ def run_samplers(case, ctx):
     fn = case["fn"]
     dim = _ALLFN[fn]
     vector = fn.startswith("samplevector")
-    f = VRec(case["f"]) if vector else Rec(case["f"])
+    f = vrec(case) if vector else Rec(case["f"])
     func = getattr(M, fn)
     ctx.label(fn)
     if case.get("invalid"):
@@ -1268,6 +1337,8 @@ def run_samplers(case, ctx):
         ctx.raises((ValueError,), "invalid-range", func, f, *rs)
         return
     fo = wrapped(ctx, case.get("wf", "object"), f, dim)
+    if vector and f.flavour != "fresh":
+        ctx.label("persistent")
     if "ranges" in case:
         rf, nf = case.get("rf", "float"), case.get("nf", "int")
         ctx.label("range:" + rf)
@@ -1290,6 +1361,7 @@ def run_samplers(case, ctx):
             out2 = func(fo, *rs)
         _same_result(ctx, fn, keep, out, "first-result-intact")
         _same_result(ctx, fn, out, out2, "second-call")
+        _intact(ctx, f, fo, fn)
         ns = [r[2] for r in rv]
     elif "points" in case:
         pts = [_fl(p) for p in case["points"]]
@@ -1308,13 +1380,14 @@ def run_samplers(case, ctx):
             got = tuple(float(c) for c in v[i]) if vector else float(v[i])
             ctx.check(got == (tuple(want) if vector else want), "entry",
                       lambda: "%s: out[%d] = %r but f%r = %r" % (fn, i, got, tuple(p), want))
-        ctx.check(sorted(f.calls) == sorted(tuple(p) for p in pts), "calls",
+        ctx.check(not f.records or sorted(f.calls) == sorted(tuple(p) for p in pts), "calls",
                   lambda: "%s: evaluated at %r, points are %r" % (fn, f.calls, pts))
         keep = v.copy()
         with ctx.cut("call-again"):
             v2 = func(fo, arg)
         _same_result(ctx, fn, keep, v, "first-result-intact")
         _same_result(ctx, fn, v, v2, "second-call")
+        _intact(ctx, f, fo, fn)
         if isinstance(arg, np.ndarray):
             ctx.check(not np.shares_memory(v, arg), "caller-owned", "%s: result shares memory with the points argument" % fn)
         ctx.nt(len(pts) >= 2 and _distinct([tuple(p) for p in pts]))
@@ -1333,6 +1406,7 @@ def run_samplers(case, ctx):
             v2 = func(fo, *args)
         _same_result(ctx, fn, keep, v, "first-result-intact")
         _same_result(ctx, fn, v, v2, "second-call")
+        _intact(ctx, f, fo, fn)
         ns = [len(a) for a in axes]
     one = any(n == 1 for n in ns)
     noncubic = dim >= 2 and len(set(ns)) == dim
